@@ -60,3 +60,68 @@ Proof. exact converged_no_write. Qed.
    in which it fails again - checked on the implementation at every quiescent
    point: oracle converged-service-rewritten).  F6 (fixed) and F22 (finding) are
    the two ways that clause failed. *)
+
+(* ==== stability over whole histories ==== *)
+From Coq Require Import Bool.
+From Verif Require Import Model.Net Proofs.AllocPolicyP Proofs.CtrlStableP.
+Import ListNotations.
+Local Open Scope N_scope.
+
+(* C03: in every history of the reconciler model that does not edit or delete the
+   Service itself, does not restart the controller (C06) and only delivers
+   configurations in which a compatible pool still owns the Service's addresses
+   (renamed, re-grouped, re-prioritised or otherwise edited pools included), the
+   Service has exactly the same addresses afterwards - in its status and in the
+   controller's memory - whatever happens to other Services, however often it is
+   re-synced and whichever status writes fail.  (Status in normalised order and
+   no second family to gain: the PreferDualStack gain is C03_handler_keeps.) *)
+Theorem C03_stable_across_history : forall rank s o0 S0,
+  sort2 rank S0 = S0 -> additional_applies (o_req o0) S0 = false ->
+  forall evs w w', WInv w -> K rank s o0 S0 w -> Forall (ok_ev rank s o0 S0) evs ->
+  wrun rank evs w = Some w' ->
+  (exists o', aget (w_api w') s = Some o' /\ o_status o' = S0) /\ ips_of (c_mem (w_ctl w')) s = S0.
+Proof. exact stable_across_history. Qed.
+
+(* the recorded addresses are admissible for the handler whenever they are
+   statically admissible and memory still records them (no other Service can
+   have taken them: exclusivity) *)
+Theorem C03_static_admissibility_suffices : forall rank s o0 S0 a an,
+  Inv a -> held s o0 S0 a -> sadm rank o0 S0 (s_pools a) -> admissible_now rank a s (with_status o0 S0 an).
+Proof. exact adm_from_static. Qed.
+
+(* non-vacuity: a reachable world, a Service holding 10.0.0.0, then a history that
+   renames its pool, re-syncs everything twice and creates another Service *)
+Definition srank (x : ip) : N := ip_val x.
+Definition s4a : ip := V4 167772160.
+Definition spool (n : poolid) : pool :=
+  {| p_name := n; p_cidrs := [ {| pfam := F4; pbase := 167772160; plen := 30 |} ]; p_avoid := false; p_auto := true; p_pin := None |}.
+Definition spools (n : poolid) : pools := {| by_name := [spool n]; by_ns := []; by_sel := [] |}.
+Definition sobj (port : N) : svcobj :=
+  {| o_lb := true;
+     o_req := {| r_ns := 1; r_labels := []; r_fam := S4; r_pol := Single; r_first6 := false;
+                 r_ports := [ {| proto := 0; pnum := port |} ]; r_key := {| sharing := 0; backend := 0 |} |};
+     o_cluster_ok := true; o_want := WNone; o_want_pool := None; o_status := []; o_annot := None |}.
+Definition sk (c : option (poolid * list ip)) : oracle := {| k_write := true; k_final := c |}.
+Definition sevs0 : list ev := [EPools (spools 1); UPut 2 (sobj 80); EReload [2] [sk (Some (1, [s4a]))]; ESvc 2 (sk None)].
+Definition sevs1 : list ev :=
+  [EPools (spools 7); EReload [2] [sk None]; UPut 3 (sobj 81); ESvc 3 (sk (Some (7, [V4 167772161]))); EKick; EReload [2; 3] [sk None; sk None]].
+Example C03_stable_across_history_nonvacuous :
+  exists w w', wrun srank sevs0 world0 = Some w /\ WInv w /\ K srank 2 (sobj 80) [s4a] w /\
+    Forall (ok_ev srank 2 (sobj 80) [s4a]) sevs1 /\ wrun srank sevs1 w = Some w' /\
+    sort2 srank [s4a] = [s4a] /\ additional_applies (o_req (sobj 80)) [s4a] = false.
+Proof.
+  destruct (wrun srank sevs0 world0) as [w|] eqn:E; [|vm_compute in E; discriminate].
+  pose proof (wrun_WInv srank sevs0 world0 w WInv_world0 E) as HW.
+  destruct (wrun srank sevs1 w) as [w'|] eqn:E'; [|vm_compute in E; injection E as <-; vm_compute in E'; discriminate].
+  exists w, w'. split; [reflexivity|]. split; [exact HW|].
+  vm_compute in E. injection E as <-.
+  assert (Hs : forall n, sadm srank (sobj 80) [s4a] (spools n)).
+  { intros n. unfold sadm.
+    split; [reflexivity|]. split; [discriminate|]. split; [reflexivity|]. split; [reflexivity|].
+    split; [discriminate|]. split; [reflexivity|].
+    split; [exists (spool n); split; [vm_compute; reflexivity|split; [reflexivity|intros wp Hwp; discriminate Hwp]]|].
+    split; [reflexivity|]. split; [reflexivity|left; reflexivity]. }
+  split; [|split; [|split; [exact E'|split; reflexivity]]].
+  - split; [exists (Some 1); reflexivity|]. split; [eexists; split; [reflexivity|]; repeat split|apply Hs].
+  - unfold sevs1. repeat (apply Forall_cons; [try exact I; try (intros H; discriminate H); try apply Hs|]). apply Forall_nil.
+Qed.
